@@ -263,7 +263,7 @@ func c03ConsistencyWorker(rep *verifkit.Report, rng *rand.Rand, wk, rounds int, 
 	start := func() bool {
 		cur = fresh()
 		var err error
-		if w, err = c03StartWire(cur); err != nil {
+		if w, err = c03StartWire(cur, false); err != nil {
 			rep.Inconcl("server start failed: " + err.Error())
 
 			return false
